@@ -85,7 +85,7 @@ Proof.
   split.
   - intros n base sched Hn s. split.
     + exact (ticket_acq_rel_inv src_orders n base s (TInv_run src_orders n base Hn sched) H1 H2).
-    + exact (ticket_recorders_inv src_orders n base s (TInv_run src_orders n base Hn sched)).
+    + exact (ticket_recorders_inv src_orders n base Hn s (TInv_run src_orders n base Hn sched)).
   - intros n sched s. split.
     + exact (simple_acq_rel_inv src_orders n s (SInv_run src_orders n sched) H3 H4).
     + exact (simple_recorders_inv src_orders n s (SInv_run src_orders n sched)).
@@ -99,6 +99,15 @@ Theorem C12_ticket_is_locked : forall o n base sched t, (N.of_nat n < W)%N ->
 Proof. intros o n base sched t Hn s. exact (ticket_is_locked_inv o n base Hn s t (TInv_run o n base Hn sched)). Qed.
 Print Assumptions C12_ticket_is_locked.
 
+(* the extracted real machines ([trstep]/[srstep], compared field by field with the real objects) are exactly the real
+   component of the instrumented machines the theorems above talk about *)
+Theorem C12_model_erasure :
+  (forall o n base sched,
+     ti_real (trun_at o n base sched) = fold_left (trstep n) sched (treal_init (N.modulo base W) (N.modulo base W))) /\
+  (forall o n sched, si_real (srun o n sched) = fold_left (srstep n) sched sreal_init).
+Proof. split; [exact trun_real|exact srun_real]. Qed.
+Print Assumptions C12_model_erasure.
+
 (* ---- non-vacuity.  3 threads, both counters start at 2^32-2, the run crosses the wrap: threads 0,1,2 draw
    tickets 2^32-2, 2^32-1, 0; thread 2 polls in vain; 0 acquires, releases; 1 acquires; 0 draws again (ticket 1);
    1 releases; 2 acquires (its ticket is 0 = wrapped serving). *)
@@ -111,9 +120,9 @@ Example C12_ticket_example :
   t_next (ti_real s) = 2%N /\ t_serving (ti_real s) = 0%N /\
   t_holding (t_pc (ti_real s) 2) = true /\ t_is_locked (ti_real s) = true /\
   (* mutex hypothesis met: 2 holds; fifo hypothesis met: 3 grants; acq_rel hypothesis met with non-trivial clocks:
-     the 3rd acquisition (by thread 2) has seen 7 steps of thread 0 and 6 of thread 1 *)
+     the 3rd acquisition (by thread 2) has seen 4 steps of thread 0 and 5 of thread 1 *)
   length (ti_acqclk s) = 3%nat /\
-  (nth 1 (ti_relclk s) cbot 1%nat = 6 /\ nth 2 (ti_acqclk s) cbot 0%nat = 5 /\ nth 2 (ti_acqclk s) cbot 1%nat = 6)%nat.
+  (nth 1 (ti_relclk s) cbot 1%nat = 5 /\ nth 2 (ti_acqclk s) cbot 0%nat = 4 /\ nth 2 (ti_acqclk s) cbot 1%nat = 5)%nat.
 Proof. vm_compute. repeat split; reflexivity. Qed.
 
 (* hand-over hypothesis met: after 0 released, nobody holds, 1 and 2 spin; the thread that can acquire is 1 *)
@@ -122,8 +131,8 @@ Example C12_handover_example :
   (forall u, u < 3 -> t_holding (t_pc (ti_real s) u) = false) /\ t_waiting (t_pc (ti_real s) 2) = true /\
   t_pc (ti_real (tstep src_orders 3 s 1)) 1%nat = TCrit /\ t_pc (ti_real (tstep src_orders 3 s 2)) 2%nat = TSpin 0.
 Proof.
-  vm_compute. split; [|repeat split; reflexivity].
-  intros u Hu. destruct u as [|[|[|u]]]; try reflexivity. exfalso.
+  split; [|vm_compute; repeat split; reflexivity].
+  intros u Hu. destruct u as [|[|[|u]]]; [vm_compute; reflexivity ..|]. exfalso.
   do 3 apply Nat.succ_lt_mono in Hu. inversion Hu.
 Qed.
 
@@ -136,11 +145,11 @@ Example C12_acq_rel_needs_release_store :
 Proof. vm_compute. repeat split; reflexivity. Qed.
 
 Example C12_simple_example :
-  let s := srun src_orders 3 [0; 1; 2; 1; 0; 1; 2; 1; 1; 2; 2]%nat in
+  let s := srun src_orders 3 [0; 1; 2; 1; 0; 1; 2; 1; 1; 2]%nat in
   si_grants s = [0; 1; 2]%nat /\ si_released s = 2%nat /\ s_holding (s_pc (si_real s) 2) = true /\
   s_lock (si_real s) = true /\ length (si_acqclk s) = 3%nat /\
-  (nth 1 (si_relclk s) cbot 1%nat <= nth 2 (si_acqclk s) cbot 1%nat /\ 0 < nth 1 (si_relclk s) cbot 1%nat)%nat.
-Proof. vm_compute. repeat split; try reflexivity; repeat constructor. Qed.
+  (nth 1 (si_relclk s) cbot 1%nat = 5 /\ nth 2 (si_acqclk s) cbot 1%nat = 5 /\ nth 2 (si_acqclk s) cbot 2%nat = 3)%nat.
+Proof. vm_compute. repeat split; reflexivity. Qed.
 
 Local Open Scope Z_scope.
 
